@@ -96,13 +96,15 @@ def run(rep, tier, seed, budget):
 
     A_TAB = ["[C]", "[=C]", "[#C]", "[Branch1]", "[=Branch1]", "[Ring1]", "[=Ring1]", "[epsilon]", "[NH1]", "[CH4]", "[nop]", "."]
 
+    A_TAB4 = ["[C]", "[=C]", "[Branch1]", "[Ring1]", "[NH1]", "[CH4]", "[epsilon]", "."]
+
     def tab_level(N):
         def path(eng, col):
             table = ctx.sym_table(["C", "N", "?"])
             ctx.reset(table)
             comp = fresh_bool("compatible")
             attr = fresh_bool("attribute")
-            toks = make_tokens("t", N, A_TAB)
+            toks = make_tokens("t", N, A_TAB if (N < 4 or not quick) else A_TAB4)
             c, a = bool(comp), bool(attr)
             r = dech.run_decoder(ctx, TokStr(toks), compatible=c, attribute=a)
             col.count(r[0])
@@ -165,7 +167,7 @@ def run(rep, tier, seed, budget):
         if kind == "hist":
             fn, bounds = hist_level(n), {"alphabet": A_H, "N_symbols": n, "tables": "A, B: C, N, I free"}
         elif kind == "tab":
-            fn, bounds = tab_level(n), {"alphabet": A_TAB, "N_symbols": n, "table": "C, N, ? free in 0..9"}
+            fn, bounds = tab_level(n), {"alphabet": A_TAB if (n < 4 or not quick) else A_TAB4, "N_symbols": n, "table": "C, N, ? free in 0..9"}
         elif kind == "tok":
             fn, bounds = tok_level(n), {"alphabet": A_TOK, "N_symbols": n}
         elif kind == "chr":
